@@ -132,9 +132,10 @@ TEMPLATES["shadowing"] = dict(
 
 class ClosureModel(Model):
     name = "closures"
+    T = TEMPLATES
 
     def templates(self, tier):
-        return list(TEMPLATES)
+        return list(self.T)
 
     def init(self, tpl):
         return {"hist": []}
@@ -143,11 +144,11 @@ class ClosureModel(Model):
         return {"hist": list(st["hist"])}
 
     def _stmts(self, tpl, op, k):
-        o = TEMPLATES[tpl]["ops"][op]
+        o = self.T[tpl]["ops"][op]
         return o(k) if callable(o) else [o]
 
     def _run(self, tpl, hist, extra=()):
-        t = TEMPLATES[tpl]
+        t = self.T[tpl]
         ast = list(t["prelude"])
         for k, i in enumerate(hist):
             ast += self._stmts(tpl, i, k)
@@ -157,13 +158,13 @@ class ClosureModel(Model):
         return it, ok
 
     def canon(self, tpl, st):
-        t = TEMPLATES[tpl]
+        t = self.T[tpl]
         it, ok = self._run(tpl, st["hist"], [("print", o) for o in t["observers"]])
         n = len(t["observers"])
         return tuple(it.out[-n:])
 
     def ops(self, tpl, st):
-        t = TEMPLATES[tpl]
+        t = self.T[tpl]
         out = list(range(len(t["ops"])))
         if "cap_len" in t:
             name, cap = t["cap_len"]
@@ -179,11 +180,11 @@ class ClosureModel(Model):
         return after.out[len(before.out):], not ok
 
     def prelude(self, tpl):
-        return refint.program(TEMPLATES[tpl]["prelude"])
+        return refint.program(self.T[tpl]["prelude"])
 
     def prelude_obs(self, tpl):
         it = refint.Interp()
-        it.run(TEMPLATES[tpl]["prelude"])
+        it.run(self.T[tpl]["prelude"])
         return it.out
 
     def op_src(self, tpl, op, k):
